@@ -156,6 +156,23 @@ def source(spec):
         for m in range(maxe + 1):
             for es in itertools.combinations(pairs, m):
                 yield {'L': L, 'R': Rr, 'edges': [list(e) for e in es]}
+    elif kind == 'large':
+        # one structured graph per type beyond the sizes code can depend on
+        # (three-digit labels, CPython's small-integer cache at 256)
+        gtype, n = spec[1], spec[2]
+        hot = [v for v in (1, 2, 9, 10, 11, 99, 100, 101, 255, 256, 257, 258, n - 1, n)
+               if 1 <= v <= n]
+        if gtype == 'bipartite':
+            L, Rr = n, n + 3
+            es = set((u, v) for u in hot for v in hot + [Rr] if (u * 7 + v * 3) % 4 == 0)
+            es |= set((i, (i * 5) % Rr + 1) for i in range(1, L + 1))
+            yield {'L': L, 'R': Rr, 'edges': [list(e) for e in sorted(es)]}
+        else:
+            es = set((i, i + 1) for i in range(1, n))
+            es |= set((u, v) for u in hot for v in hot if u < v and (u + v) % 3 != 0)
+            if gtype == 'digraph':
+                es |= set([(n, 1), (257, 257), (258, 256), (256, 255), (100, 99)])
+            yield {'n': n, 'edges': [list(e) for e in sorted(es)]}
     elif kind == 'extra':
         # a few seeded mid-size graphs appended to the exhaustive core
         gtype, seed = spec[1], spec[2]
@@ -1025,6 +1042,7 @@ def plan(tier, seed):
                 srcs += [(('bbip', L, Rr, maxe), routes) for (L, Rr) in
                          ((1, 9), (9, 1), (5, 5), (2, 10), (10, 2), (11, 12), (12, 12))]
             srcs.append((('extra', gtype, seed), 'all' if fmt != 'dot' else 'one'))
+            srcs.append((('large', gtype, 300), 'one' if fmt == 'dot' else 'most'))
             for spec, rts in srcs:
                 per = RT_MS[fmt] * {'one': 1.0, 'most': 1.7, 'all': 3.0}[rts]
                 add_graph_units('rt', gtype, fmt, spec, per, extra=(rts,))
